@@ -209,19 +209,24 @@ theorem starLoop_eq_trace (mid : Nat) (s : RState) (queue : List RGate) :
       | none => rfl
       | some bs => simp [run, List.foldl_append]
 
-/-- the loop of `StarConnectivityRouter.__call__` is a run of the action machine: whenever
-    it returns, its result is `run (init n) as` for the action list `as` it generated, so
-    (i), (b), (c) above apply to it verbatim. -/
+/-- `StarConnectivityRouter.__call__` is a run of the action machine: whenever it returns,
+    its result is the run of the action list `as` its loop generated followed by the
+    re-attachment of the deferred final measurements, so (i), (b), (c) above apply to it
+    verbatim. -/
 theorem T09_star_is_run (n mid : Nat) (queue : List RGate) (s : RState)
     (h : starRoute n mid queue = some s) :
-    ∃ as, starTrace mid (init n) queue = some as ∧ s = run (init n) as := by
+    ∃ as, starTrace mid (init n) queue = some as ∧
+      s = appendFinal (run (init n) as) (queue.filter isFinalMeas) ∧
+      s = run (init n) (as ++ [.exec (queue.filter isFinalMeas)]) := by
   unfold starRoute at h
   rw [starLoop_eq_trace] at h
   cases ht : starTrace mid (init n) queue with
   | none => simp [ht] at h
   | some as =>
     simp only [ht, Option.map_some, Option.some.injEq] at h
-    exact ⟨as, rfl, h.symm⟩
+    refine ⟨as, rfl, h.symm, ?_⟩
+    rw [← h]
+    simp [appendFinal, run, List.foldl_append]
 
 /-! ### `_create_dag` -/
 
@@ -305,6 +310,13 @@ example : guardsOk 3 [(0, 1), (1, 2)] (init 3) [.swap 0 2] = false := by decide
 /-- star router, centre 2: CZ(0,1) needs SWAP(0,2); the trailing M(0,1,3) follows l2p. -/
 example : (starRoute 5 2 [⟨7, false, [0, 1]⟩, ⟨1, true, [0, 1, 3]⟩]).map (fun s => (s.routed, s.l2p))
     = some ([⟨0, false, [0, 2]⟩, ⟨7, false, [2, 1]⟩, ⟨1, true, [2, 1, 3]⟩], [2, 1, 0, 3, 4]) := by
+  decide
+
+/-- a final measurement in front of a gate that needs a SWAP on its wire is deferred and
+    re-attached through the final layout; a collapsing one (tag 2) is routed in place. -/
+example : (starRoute 5 2 [⟨1, true, [0]⟩, ⟨2, true, [1]⟩, ⟨7, false, [0, 1]⟩]).map
+      (fun s => (s.routed, s.l2p))
+    = some ([⟨2, true, [1]⟩, ⟨0, false, [0, 2]⟩, ⟨7, false, [2, 1]⟩, ⟨1, true, [2]⟩], [2, 1, 0, 3, 4]) := by
   decide
 
 end QV.Props.C09
